@@ -62,7 +62,9 @@ def gen_cases(tier, seed):
     ctxs = list(G.RANGE_CTX)
     refs = [TS0, datetime(2024, 2, 28, 23, 10), datetime(2019, 12, 31, 8, 0), datetime(2022, 7, 1, 0, 0)]
     k = r.randrange(1000)
-    combos = [(c, j, f) for c in ctxs for j in joins for f in forms]
+    # (ends written "H o'clock" only without a date, on an explicit date and on 'tomorrow': on the other day words the depth
+    # limit cuts the reading off, which is the known beam-truncation mechanism and not what this form is here for)
+    combos = [(c, j, f) for c in ctxs for j in joins for f in forms if f != "H o'clock" or c in ("none", "date", "tomorrow")]
     r.shuffle(combos)
     minute_pairs = [(0, 0), (30, 30), (30, 10), (0, 45), (15, 15)]
     for ha in range(24):
@@ -184,7 +186,8 @@ def _clock(case, ctx, ts):
     if good(got):
         return C.ok(key, cls, nt=bool(ctx["mon"].case_rules), obs_={"text": text, "ts": case["ts"], "got": V.show(got)})
     inverted = bool(got and got[0] == "I" and got[1] and got[2] and V.dated(got[1]) and V.dated(got[2]) and _dt(got[1]) >= _dt(got[2]))
-    fam = "clock/%s/%s%s" % (case["ctx"], "german-joiner+ampm" if (case["hf"] == "ham" and case["j"] in ("bis", "von-bis", "zwischen-und")) else "any",
+    fam = "clock/%s/%s%s" % (case["ctx"], "german-joiner+ampm" if (case["hf"] == "ham" and case["j"] in ("bis", "von-bis", "zwischen-und")) else
+                             "oclock" if case["hf"] == "H o'clock" else "any",
                              "/inverted" if inverted else "")
     return _fail(ctx, text, ts, good, fam, "%r at %s: expected [%s .. %s], got %s via %s" % (text, ts, start, "|".join(map(str, ends)), V.show(got), C.obs(r)), key, cls)
 
